@@ -65,7 +65,9 @@ def contraction_dt(case, A, B, gen):
     I = np.eye(M * n)
     for _ in range(14):
         try:
-            if sw in ('dahlquist', 'heat', 'adv', 'dense'):
+            if sw in ('dense_x', 'dahlquist_x'):
+                K = np.linalg.solve(I - dt * np.kron(QE, A), dt * np.kron(Q - QE, A))
+            elif sw in ('dahlquist', 'heat', 'adv', 'dense'):
                 K = np.linalg.solve(I - dt * np.kron(QI, A), dt * np.kron(Q - QI, A))
             elif sw in ('dahlquist_imex', 'heatf', 'denseimex'):
                 K = np.linalg.solve(I - dt * np.kron(QI, A) - dt * np.kron(QE, B), dt * (np.kron(Q - QI, A) + np.kron(Q - QE, B)))
